@@ -157,6 +157,33 @@ fn run_case(bits: usize, m: usize, t: usize, seeded: bool, rseed: u64) -> Value 
     let masks = res.unwrap();
     out["recovered"] = json!(masks.iter().map(|m| m.is_some()).collect::<Vec<_>>());
 
+    // phase 2b: a recovering verification that FAILS after the masks were recovered (a later member of the batch is invalid): nothing freed on
+    // the error path may hold what was recovered
+    if seeded {
+        let mut bad = proof.clone().to_bytes();
+        let n = bad.len();
+        bad[n - 40] ^= 1;                                         // inside the last R: still a canonical point or not, the batch must fail
+        let other = RangeProof::<RistrettoPoint>::from_bytes(&bad);
+        let mut bad2 = proof.to_bytes();
+        bad2[1 + 32 * t + 32 * 3 + 1] ^= 1;                      // r1 changed: decodes, does not verify
+        let other2 = RangeProof::<RistrettoPoint>::from_bytes(&bad2);
+        for (name, second) in [("verify_fails_after_recovery_a", other.ok()), ("verify_fails_after_recovery_b", other2.ok())] {
+            if let Some(p2) = second {
+                let st_plain = RangeStatement::init(params.clone(), commitments.clone(), promises.clone(), None).unwrap();
+                let mut trs = vec![Transcript::new(b"bpv-alloc"), Transcript::new(b"bpv-alloc")];
+                let sts = vec![statement.clone(), st_plain];
+                let prs = vec![proof.clone(), p2];
+                for mode in [VerifyAction::RecoverAndVerify] {
+                    arm();
+                    let res = RangeProof::<RistrettoPoint>::verify_batch(&mut trs, &sts, &prs, mode);
+                    let scan = disarm_scan(&patterns);
+                    out[name] = scan;
+                    out[format!("{}_is_err", name)] = json!(res.is_err());
+                }
+            }
+        }
+    }
+
     // phase 3: drop of the recovered masks (they hold the blinding factors)
     arm();
     drop(masks);
